@@ -50,9 +50,11 @@ Qed.
 Print Assumptions C16_compile_dot_assign_unbalanced_before_fix.
 
 (* ---------- the expression fragment is compiled correctly ---------- *)
-(* For every expression built from number/bool/string literals, global
-   variables, unary - and !, the binary operators on numbers and strings and
-   ==/!=  (efrag), compiled from any compiler state: wherever the emitted
+(* For every expression built from number/bool/string literals, array
+   literals `[e1 e2 …]` (nested), global variables, unary - and !, the binary
+   operators on numbers and strings, ==/!= and index reads `a[i]` on strings
+   (by code point) and arrays (negative indices count from the end; an index
+   error leaves eval_expr undefined)  (efrag), compiled from any compiler state: wherever the emitted
    segment is placed in a program whose constant table starts with the
    compiler's constants, running the VM model from the segment's first
    instruction executes exactly the segment and leaves the stack as it was
@@ -109,7 +111,7 @@ Print Assumptions C16_compile_correct_straightline.
    is a run-time error, so the semantics is undefined there) and `break`
    (inside a loop only: nb_stmt), arbitrarily nested, all expressions in efrag
    (_partial: no loop variables inside blocks, no ranges over strings / arrays /
-   maps, no block-local declarations, no arrays/maps).  The boolean of a result of exec_l says that a break is
+   maps, no block-local declarations, no maps / slices / element stores).  The boolean of a result of exec_l says that a break is
    under way; the innermost loop ends it.  The VM keeps the state of a range
    loop (index, step, stop) on the operand stack: the simulation carries the
    stack `base` below the statement, and OpDrop removes the state at the exit
@@ -185,8 +187,8 @@ Print Assumptions C16_compile_wf_large_before_fix.
    LOCAL of the block's scope —, assignments `x = e` to globals and locals,
    if / else-if / else chains, while, break, `for range …` without a loop
    variable — arbitrarily nested, with all expressions in the expression
-   fragment efrag (reads of globals and locals; _partial: no arrays / maps /
-   index / slice, no function calls).  For every such program: if the compiler
+   fragment efrag (reads of globals and locals, array literals, index reads;
+   _partial: no maps / slices / element stores, no function calls).  For every such program: if the compiler
    succeeds and leaves no pending break (a break outside a loop, which the
    parser rejects), its output satisfies WF with LocalCount = the
    nestedMaxIndex of the compiler's root table:
@@ -407,6 +409,35 @@ Example C16_ex_forlv_defined :
   match compile ex_forlv with
   | COk st => match vm_run 4000 (program_of (bytecode_of st)) (vm_init (program_of (bytecode_of st))) with
               | FHalted s => globals s = [VNum (float_of_Z 10); VNum (float_of_Z 4)] /\ ostack s = []
+              | _ => False
+              end
+  | CErr _ => False
+  end.
+Proof. vm_compute. repeat split; try reflexivity. discriminate. Qed.
+
+(* a := [10 20 30]; x := a[1] + a[-1]; s := "hello"; c := s[1]; b := [[1 2] [3]]; y := b[0][1]
+   -- x = 50, c = "e", y = 2 (array literals and index reads are in efrag) *)
+Definition ex_arr : slist :=
+  let num k := ENum (float_of_Z k) in
+  let arr3 a b c := EArr (ECons a (ECons b (ECons c ENil))) in
+  SCons (SDecl (s_ "a") (arr3 (num 10%Z) (num 20%Z) (num 30%Z)))
+ (SCons (SDecl (s_ "x") (EBin BPlus TNum TNum (EIndex (EVar (s_ "a")) (num 1%Z)) (EIndex (EVar (s_ "a")) (num (-1)%Z))))
+ (SCons (SDecl (s_ "s") (EStr (s_ "hello")))
+ (SCons (SDecl (s_ "c") (EIndex (EVar (s_ "s")) (num 1%Z)))
+ (SCons (SDecl (s_ "b") (EArr (ECons (EArr (ECons (num 1%Z) (ECons (num 2%Z) ENil))) (ECons (EArr (ECons (num 3%Z) ENil)) ENil))))
+ (SCons (SDecl (s_ "y") (EIndex (EIndex (EVar (s_ "b")) (num 0%Z)) (num 1%Z))) SNil))))).
+
+Example C16_ex_arr_defined :
+  psfrag ex_arr = true /\ (ldepth ex_arr <= Gen.Opcodes.StackSize)%N /\
+  match exec_l 20 ex_arr (fun _ => None) with
+  | Some (env, false) => env (s_ "x") = Some (VNum (float_of_Z 50)) /\ env (s_ "c") = Some (VStr [101%N]) /\
+                         env (s_ "y") = Some (VNum (float_of_Z 2))
+  | _ => False
+  end /\
+  match compile ex_arr with
+  | COk st => match vm_run 4000 (program_of (bytecode_of st)) (vm_init (program_of (bytecode_of st))) with
+              | FHalted s => nth_error (globals s) 1 = Some (VNum (float_of_Z 50)) /\ nth_error (globals s) 3 = Some (VStr [101%N]) /\
+                             nth_error (globals s) 5 = Some (VNum (float_of_Z 2))
               | _ => False
               end
   | CErr _ => False
